@@ -1215,7 +1215,15 @@ func (g *Gen) genKind(k string) *Op {
 				op.A = acc.Idx // submitted by the new account itself (not bound yet)
 			}
 		}
-		switch r.Pick([]float64{10, 1.5, 1.5, 1, 3, 3, 2}) {
+		switch r.Pick([]float64{10, 1.5, 1.5, 1, 3, 3, 2, 2, 1.5}) {
+		case 7:
+			// the account's signature is over a text naming another DID (a signature it gave elsewhere)
+			op.Mis = "msgdid"
+			e.probe("binding_proof_signed_for_another_did")
+		case 8:
+			// ... or over a text dated long ago, with a fresh timestamp field next to it
+			op.Mis = "msgts"
+			e.probe("binding_proof_signed_long_ago")
 		case 6:
 			op.Mis = "eip155mixed"
 			if r.Chance(0.5) {
